@@ -40,6 +40,135 @@ def model_validates(m, facts, pc, goal):
         return False
 
 
+# ---------------------------------------------------------------------------------------------------------------------
+# Lambda lifting.  z3 5.1 (the solver behind the Python binding) is UNSOUND when two different lambda terms are passed
+# as arguments to a recursive function: after the first unfolding it conflates them (minimal reproduction in
+# pyvc/selftest.py: vsum(lambda i. x[i]+y[i], 0, 3) != vsum(lambda i. x[i]-y[i], 0, 3) with y = 1 is reported unsat).
+# Every query is therefore rewritten before it reaches a solver: each closed lambda that occurs as an argument of an
+# uninterpreted or recursive function is replaced by a fresh array constant c together with the defining axiom
+# forall i. c[i] == (lambda)[i]; syntactically equal lambdas share their constant.  Lambdas that cannot be lifted
+# (they mention a variable bound outside) make the query 'risky': an unsat answer for it is not accepted.
+_LIFT_CACHE = {}        # ast id -> (term kept alive, set of closed lambda args, has_open)
+_LIFT_CONST = {}        # lambda sexpr -> (const, axiom)
+
+
+def _fn_like(d):
+    k = d.kind()
+    return k == z3.Z3_OP_UNINTERPRETED or k == getattr(z3, "Z3_OP_RECURSIVE", -1)
+
+
+def _has_free_var(t, depth=0, memo=None):
+    memo = {} if memo is None else memo
+    key = (t.get_id(), depth)
+    if key in memo:
+        return memo[key]
+    if z3.is_var(t):
+        r = z3.get_var_index(t) >= depth
+    elif z3.is_quantifier(t):
+        r = _has_free_var(t.body(), depth + t.num_vars(), memo)
+    else:
+        r = any(_has_free_var(c, depth, memo) for c in t.children())
+    memo[key] = r
+    return r
+
+
+def _collect_lambda_args(t, out, flags, seen):
+    """closed lambdas occurring as arguments of function applications anywhere in t"""
+    tid = t.get_id()
+    if tid in seen:
+        return
+    seen.add(tid)
+    if z3.is_var(t):
+        return
+    if z3.is_quantifier(t):
+        _collect_lambda_args(t.body(), out, flags, seen)
+        return
+    if z3.is_app(t):
+        if _fn_like(t.decl()) and t.num_args() > 0:
+            for c in t.children():
+                if z3.is_quantifier(c) and c.is_lambda():
+                    if _has_free_var(c):
+                        flags["open"] = True
+                    else:
+                        out[c.get_id()] = c
+        for c in t.children():
+            _collect_lambda_args(c, out, flags, seen)
+
+
+_SCAN = {}      # ast id -> (term, {lambda id: lambda}, open?)   (the term is stored so that the id stays valid)
+_SUBST = {}     # (ast id, lambda ids) -> rewritten term
+
+
+def _scan(f):
+    r = _SCAN.get(f.get_id())
+    if r is None:
+        found, flags = {}, {"open": False}
+        _collect_lambda_args(f, found, flags, set())
+        r = (f, found, flags["open"])
+        _SCAN[f.get_id()] = r
+    return r
+
+
+def lift_lambdas(formulas):
+    """-> (rewritten formulas, definitional axioms, risky)"""
+    formulas = list(formulas)
+    used = {}           # lambda sexpr -> (const, axiom, lambda)
+    risky = False
+    for _round in range(8):
+        found = {}
+        for f in formulas + [u[1] for u in used.values()]:
+            if isinstance(f, bool):
+                continue
+            _t, fd, op = _scan(f)
+            found.update(fd)
+            risky = risky or op
+        if not found:
+            break
+        subs = []
+        for lam in found.values():
+            key = lam.sexpr()
+            if key not in _LIFT_CONST:
+                n = len(_LIFT_CONST)
+                c = z3.Const("lam!%d" % n, lam.sort())
+                idx = [z3.Const("lam!i%d_%d" % (n, k), lam.var_sort(k)) for k in range(lam.num_vars())]
+                ax = z3.ForAll(idx, z3.Select(c, *idx) == z3.Select(lam, *idx))
+                _LIFT_CONST[key] = (c, ax, lam)
+            used[key] = _LIFT_CONST[key]
+            subs.append((lam, _LIFT_CONST[key][0]))
+        skey = tuple(sorted(l.get_id() for l, _c in subs))
+
+        def sub(f, extra_skip=None):
+            if isinstance(f, bool):
+                return f
+            k = (f.get_id(), skey, extra_skip)
+            r = _SUBST.get(k)
+            if r is None:
+                ss = [(l, c) for l, c in subs if extra_skip is None or l.get_id() != extra_skip]
+                r = (f, z3.substitute(f, *ss) if ss else f)
+                _SUBST[k] = r
+            return r[1]
+        formulas = [sub(f) for f in formulas]
+        # an axiom keeps its own lambda on its right-hand side (select position only); other lifted lambdas in it go
+        for key in list(used):
+            c, ax, lam = used[key]
+            used[key] = (c, sub(ax, lam.get_id()), lam)
+    else:
+        risky = True
+    return formulas, [u[1] for u in used.values()], risky
+
+
+def lifted_solver(formulas, timeout_ms):
+    """a z3 solver loaded with the (lambda-lifted) formulas; second component: the rewriting was incomplete"""
+    fs, axioms, risky = lift_lambdas([f for f in formulas if not isinstance(f, bool) or f is False])
+    s = z3.Solver()
+    s.set("timeout", timeout_ms)
+    for f in fs:
+        s.add(f if not isinstance(f, bool) else z3.BoolVal(f))
+    for a_ in axioms:
+        s.add(a_)
+    return s, risky
+
+
 _SK = [0]
 
 
@@ -99,6 +228,23 @@ def discharge(ob, facts, timeout_ms=10000, use_cvc5=True, both=False, small_term
     goal = ob.goal
     if z3.is_bool(goal) and not isinstance(goal, bool):
         goal = skolemize(goal)
+    # lambda lifting (soundness of the back end, see above): facts, path condition and goal are rewritten together
+    nf, npc = len(facts), len(ob.pc)
+    try:
+        lifted, lift_axioms, risky = lift_lambdas(list(facts) + list(ob.pc) + [goal])
+    except z3.Z3Exception as e:
+        lifted, lift_axioms, risky = list(facts) + list(ob.pc) + [goal], [], True
+    facts = list(lifted[:nf]) + list(lift_axioms)
+    orig_pc = ob.pc
+    ob.pc = list(lifted[nf:nf + npc])
+    goal = lifted[-1]
+    try:
+        return _discharge(ob, facts, goal, t0, timeout_ms, use_cvc5, both, small_terms, risky)
+    finally:
+        ob.pc = orig_pc
+
+
+def _discharge(ob, facts, goal, t0, timeout_ms, use_cvc5, both, small_terms, risky):
     if z3.is_true(z3.simplify(goal)):
         ob.verdict, ob.backend, ob.time = "proved", "simplify", time.time() - t0
         return ob
@@ -171,6 +317,10 @@ def discharge(ob, facts, timeout_ms=10000, use_cvc5=True, both=False, small_term
                     break
             except z3.Z3Exception:
                 break
+    if risky and ob.verdict == "proved" and ob.backend != "simplify":
+        ob.verdict = "undecided"
+        ob.note = ("the query passes a lambda that depends on a bound variable to a function: not lifted, and the "
+                   "solver's unsat answers for such queries are not trusted")
     if both and ob.verdict == "proved" and ob.backend.startswith("z3"):
         v = cvc5_check(s.to_smt2(), timeout_ms)
         ob.cross = v
@@ -204,10 +354,8 @@ def cvc5_check(smt2, timeout_ms):
 
 
 def satisfiable(facts, pc, timeout_ms=5000):
-    s = z3.Solver()
-    s.set("timeout", timeout_ms)
-    for f in facts:
-        s.add(f)
-    for p in pc:
-        s.add(p)
-    return s.check()
+    s, risky = lifted_solver(list(facts) + list(pc), timeout_ms)
+    r = s.check()
+    if risky and r == z3.unsat:
+        return z3.unknown
+    return r
